@@ -72,11 +72,11 @@ pub async fn advance(ms: u64) {
 #[derive(Clone, Debug, PartialEq)]
 pub enum Rx {
     /// a complete application fragment (reassembled from transport segments)
-    Fragment { t_ms: u64, src: u16, dest: u16, bytes: Vec<u8>, segments: usize },
+    Fragment { ord: u64, t_ms: u64, src: u16, dest: u16, bytes: Vec<u8>, segments: usize },
     /// a link-layer only frame (ACK, LINK_STATUS, REQUEST_LINK_STATUS, ...)
-    Link { t_ms: u64, frame: rl::Frame },
+    Link { ord: u64, t_ms: u64, frame: rl::Frame },
     /// bytes that are not a well-formed frame / segment sequence
-    Garbage { t_ms: u64, why: String, bytes: Vec<u8> },
+    Garbage { ord: u64, t_ms: u64, why: String, bytes: Vec<u8> },
 }
 
 impl Rx {
@@ -84,6 +84,11 @@ impl Rx {
         match self {
             Rx::Fragment { bytes, .. } => Some(bytes),
             _ => None,
+        }
+    }
+    pub fn ord(&self) -> u64 {
+        match self {
+            Rx::Fragment { ord, .. } | Rx::Link { ord, .. } | Rx::Garbage { ord, .. } => *ord,
         }
     }
     pub fn t_ms(&self) -> u64 {
@@ -97,7 +102,7 @@ impl Rx {
 /// with strict checks (every write must be whole frames; segments FIR..FIN in order).
 pub struct WireDecoder {
     partial: Vec<u8>,
-    partial_meta: Option<(u16, u16, u8, usize, u64)>, // src, dest, next seq, segments, t_ms of first
+    partial_meta: Option<(u16, u16, u8, usize, u64, u64)>, // src, dest, next seq, segments, t_ms of first, ord of first
     pub expect_seq: Option<u8>,
     pub seq_violations: u64,
 }
@@ -111,13 +116,13 @@ impl WireDecoder {
         self.partial_meta = None;
         self.expect_seq = None;
     }
-    pub fn feed(&mut self, t_ms: u64, bytes: &[u8], out: &mut Vec<Rx>) {
+    pub fn feed(&mut self, ord: u64, t_ms: u64, bytes: &[u8], out: &mut Vec<Rx>) {
         let scan = rl::scan_close(bytes);
         for (_, f) in &scan.frames {
             let func = f.ctrl & 0x4F;
             if func == rl::F_UNCONFIRMED_DATA || func == rl::F_CONFIRMED_DATA {
                 if f.payload.is_empty() {
-                    out.push(Rx::Garbage { t_ms, why: "data frame without transport octet".into(), bytes: f.encode() });
+                    out.push(Rx::Garbage { ord, t_ms, why: "data frame without transport octet".into(), bytes: f.encode() });
                     continue;
                 }
                 let h = f.payload[0];
@@ -125,39 +130,39 @@ impl WireDecoder {
                 if let Some(e) = self.expect_seq {
                     if e != seq {
                         self.seq_violations += 1;
-                        out.push(Rx::Garbage { t_ms, why: format!("transport sequence {seq}, expected {e}"), bytes: f.encode() });
+                        out.push(Rx::Garbage { ord, t_ms, why: format!("transport sequence {seq}, expected {e}"), bytes: f.encode() });
                     }
                 }
                 self.expect_seq = Some((seq + 1) & 0x3F);
                 if fir {
                     if self.partial_meta.is_some() {
-                        out.push(Rx::Garbage { t_ms, why: "FIR while a fragment was in progress".into(), bytes: f.encode() });
+                        out.push(Rx::Garbage { ord, t_ms, why: "FIR while a fragment was in progress".into(), bytes: f.encode() });
                     }
                     self.partial.clear();
-                    self.partial_meta = Some((f.src, f.dest, seq, 0, t_ms));
+                    self.partial_meta = Some((f.src, f.dest, seq, 0, t_ms, ord));
                 } else if self.partial_meta.is_none() {
-                    out.push(Rx::Garbage { t_ms, why: "non-FIR segment without a start".into(), bytes: f.encode() });
+                    out.push(Rx::Garbage { ord, t_ms, why: "non-FIR segment without a start".into(), bytes: f.encode() });
                     continue;
                 }
                 let meta = self.partial_meta.as_mut().unwrap();
                 if meta.0 != f.src || meta.1 != f.dest {
-                    out.push(Rx::Garbage { t_ms, why: "segment addresses changed within a fragment".into(), bytes: f.encode() });
+                    out.push(Rx::Garbage { ord, t_ms, why: "segment addresses changed within a fragment".into(), bytes: f.encode() });
                 }
                 if !fin && f.payload.len() != 250 {
-                    out.push(Rx::Garbage { t_ms, why: format!("non-final segment with {} bytes", f.payload.len() - 1), bytes: f.encode() });
+                    out.push(Rx::Garbage { ord, t_ms, why: format!("non-final segment with {} bytes", f.payload.len() - 1), bytes: f.encode() });
                 }
                 meta.3 += 1;
                 self.partial.extend_from_slice(&f.payload[1..]);
                 if fin {
-                    let (src, dest, _, segments, t0) = self.partial_meta.take().unwrap();
-                    out.push(Rx::Fragment { t_ms: t0, src, dest, bytes: std::mem::take(&mut self.partial), segments });
+                    let (src, dest, _, segments, t0, ord0) = self.partial_meta.take().unwrap();
+                    out.push(Rx::Fragment { ord: ord0, t_ms: t0, src, dest, bytes: std::mem::take(&mut self.partial), segments });
                 }
             } else {
-                out.push(Rx::Link { t_ms, frame: f.clone() });
+                out.push(Rx::Link { ord, t_ms, frame: f.clone() });
             }
         }
         if scan.error.is_some() || scan.stop != bytes.len() {
-            out.push(Rx::Garbage { t_ms, why: format!("write is not whole valid frames (error {:?})", scan.error), bytes: bytes[scan.stop..].to_vec() });
+            out.push(Rx::Garbage { ord, t_ms, why: format!("write is not whole valid frames (error {:?})", scan.error), bytes: bytes[scan.stop..].to_vec() });
         }
     }
 }
